@@ -278,7 +278,12 @@ func (e *enc) disc(d *model.NodeManagementDetailedDiscoveryDataType) {
 
 var droppedUnrepresentable int
 
-func abstractPayload(payload []byte) hx.Zs {
+func abstractPayload(payload []byte) (z hx.Zs) {
+	defer func() {
+		if r := recover(); r != nil { // the decoder itself panics: the payload goes out as an opaque operation
+			z = nil
+		}
+	}()
 	var dg model.Datagram
 	if err := json.Unmarshal(payload, &dg); err != nil {
 		return hx.Zs{0}
